@@ -277,6 +277,68 @@ def empty_prims(outdir):
 # ------------------------------------------------------------------------------------------------
 # code -> spec: record executions of the real crate and validate them against Trace_Api.tla
 # ------------------------------------------------------------------------------------------------
+def validate_jobs(tag, jobs, outdir, gen, n, timeout=900, parallel=8, missing_prim_rejects=False):
+    """Validates recorded traces (jobs: (seed, trace, prims)) with TLC against Trace_Api.tla; returns the rejections."""
+    cfg = os.path.join(outdir, f"{tag}.trace.cfg")
+    write_cfg(cfg, {}, postcondition="Accepted")
+    running = []
+    results = []
+
+    def start(job):
+        sd, trace, prims = job
+        meta = trace + ".tlc"
+        shutil.rmtree(meta, ignore_errors=True)
+        cmd = tlc_cmd(os.path.join(SPEC, "Trace_Api.tla"), cfg, meta, 1, xmx="3g", xss="512m", deque=True)
+        env = dict(os.environ, TRACE=trace, PRIMS=prims, LENUNIT=len_unit())
+        logf = open(trace + ".tlc.log", "w")
+        p = subprocess.Popen(["timeout", str(timeout)] + cmd, cwd=SPEC, stdout=logf, stderr=subprocess.STDOUT, env=env)
+        return (p, job, meta, logf)
+
+    pending = list(jobs)
+    while pending or running:
+        while pending and len(running) < parallel:
+            running.append(start(pending.pop(0)))
+        p, job, meta, logf = running.pop(0)
+        rc = p.wait()
+        logf.close()
+        shutil.rmtree(meta, ignore_errors=True)
+        results.append((rc, job))
+    rejections = []
+    for rc, (sd, trace, prims) in results:
+        text = open(trace + ".tlc.log", errors="replace").read()
+        if rc == 124:
+            raise ToolError(f"[{tag}] trace validation timed out ({trace})")
+        drift = text.count('<<"MESSAGE-DRIFT"')
+        if drift:
+            DIAGNOSTICS["message_texts_differing_from_Messages.tla"] = DIAGNOSTICS.get("message_texts_differing_from_Messages.tla", 0) + drift
+            log(f"[diagnostic] {drift} error message text(s) differ from Messages.tla (not part of any property; not part of the verdict)")
+        unmatched = [l for l in text.splitlines() if l.startswith('"{') and "unmatched" in l]
+        if unmatched:
+            ev = json.loads(json.loads(unmatched[0]))
+            rejections.append({"seed": sd, "trace": trace, "index": ev["unmatched"], "event": ev["event"], "gen": gen, "n": n})
+        elif missing_prim_rejects and "nonexistent field" in text:
+            # the specification's evaluation needed an environment primitive on operands the recorded execution never applied
+            # an operator to: the two evaluations diverged inside this event
+            idx = [int(m) for m in re.findall(r"^/\\ l = (\d+)$", text, re.M)]
+            at = max(idx) if idx else 0
+            ev = {}
+            with open(trace) as tf:
+                for k, line in enumerate(tf, 1):
+                    if k == at:
+                        ev = json.loads(line)
+            rejections.append({"seed": sd, "trace": trace, "index": at, "event": ev, "gen": gen, "n": n,
+                               "why": "the specification's evaluation diverged from the recorded one (operands never seen)"})
+        elif "Model checking completed. No error has been found." not in text:
+            errs = [l for l in text.splitlines() if l.startswith("Error")][:3]
+            raise ToolError(f"[{tag}] TLC failed on {trace}: {errs}")
+        else:
+            os.remove(trace)          # accepted traces are not kept (disk)
+            for extra in (prims, trace + ".primreq.json"):
+                if os.path.exists(extra):
+                    os.remove(extra)
+    return rejections
+
+
 def record_and_validate(tag, gen, n, count, outdir, base_seed=None, timeout=900, parallel=8, extra_args=(), seeds=None):
     """Records `count` independent traces of `n` driver steps each with generator `gen` (seeds derived from VERIF_SEED)
     and validates each with TLC.  Returns (events_validated, rejections); a rejection carries the first unmatched event."""
@@ -315,52 +377,71 @@ def record_and_validate(tag, gen, n, count, outdir, base_seed=None, timeout=900,
                         TRACE_SAMPLES.append({"recorded_event": describe_event(ev), "seed": sd, "raw": line[:700]})
                     if k > 50:
                         break
-    cfg = os.path.join(outdir, f"{tag}.trace.cfg")
-    write_cfg(cfg, {}, postcondition="Accepted")
-    running = []
-    results = []
-
-    def start(job):
-        sd, trace, prims = job
-        meta = trace + ".tlc"
-        shutil.rmtree(meta, ignore_errors=True)
-        cmd = tlc_cmd(os.path.join(SPEC, "Trace_Api.tla"), cfg, meta, 1, xmx="3g", xss="512m", deque=True)
-        env = dict(os.environ, TRACE=trace, PRIMS=prims, LENUNIT=len_unit())
-        logf = open(trace + ".tlc.log", "w")
-        p = subprocess.Popen(["timeout", str(timeout)] + cmd, cwd=SPEC, stdout=logf, stderr=subprocess.STDOUT, env=env)
-        return (p, job, meta, logf)
-
-    pending = list(jobs)
-    while pending or running:
-        while pending and len(running) < parallel:
-            running.append(start(pending.pop(0)))
-        p, job, meta, logf = running.pop(0)
-        rc = p.wait()
-        logf.close()
-        shutil.rmtree(meta, ignore_errors=True)
-        results.append((rc, job))
-    rejections = []
-    for rc, (sd, trace, prims) in results:
-        text = open(trace + ".tlc.log", errors="replace").read()
-        if rc == 124:
-            raise ToolError(f"[{tag}] trace validation timed out ({trace})")
-        unmatched = [l for l in text.splitlines() if l.startswith('"{') and "unmatched" in l]
-        if unmatched:
-            ev = json.loads(json.loads(unmatched[0]))
-            rejections.append({"seed": sd, "trace": trace, "index": ev["unmatched"], "event": ev["event"], "gen": gen, "n": n})
-        elif "Model checking completed. No error has been found." not in text:
-            errs = [l for l in text.splitlines() if l.startswith("Error")][:3]
-            raise ToolError(f"[{tag}] TLC failed on {trace}: {errs}")
-        else:
-            os.remove(trace)          # accepted traces are not kept (disk)
-            for extra in (prims, trace + ".primreq.json"):
-                if os.path.exists(extra):
-                    os.remove(extra)
+    rejections = validate_jobs(tag, jobs, outdir, gen, n, timeout, parallel)
     log(f"[{tag}] {count} recorded traces, {total_events} events validated against Trace_Api.tla, {len(rejections)} rejected")
     return total_events, rejections
 
 
 TRACE_SAMPLES = []
+DIAGNOSTICS = {}
+
+HOOK_CFG = "evalexpr_verif"
+
+
+def record_repo_tests(tag, outdir):
+    """Code -> spec with the repository's OWN tests as the driver: /repo is built with its guarded hooks on
+    (--cfg evalexpr_verif; target directory under /verif/out), its test suite runs with EVALEXPR_VERIF_TRACE set, every
+    top-level precompilation and evaluation the tests perform is recorded (src/verif.rs), converted (`harness convert`)
+    and validated against Trace_Api.tla.  Returns (info, rejections); info["skipped"] is set when the hooked build or the
+    hooked test run does not succeed - then nothing is concluded from this source (it is neither a pass nor an alarm)."""
+    os.makedirs(outdir, exist_ok=True)
+    hbin = build_harness()
+    raw = os.path.join(outdir, f"{tag}.raw.jsonl")
+    if os.path.exists(raw):
+        os.remove(raw)
+    target = os.path.join(OUT, "target-repo-hooks")
+    flags = f"--cfg {HOOK_CFG}"
+    env = dict(os.environ, CARGO_NET_OFFLINE="true", CARGO_TARGET_DIR=target, RUSTFLAGS=flags, RUSTDOCFLAGS=flags,
+               EVALEXPR_VERIF_TRACE=raw)
+    info = {"source": "repository test suite under --cfg " + HOOK_CFG, "skipped": None}
+    t0 = time.time()
+    if not os.path.exists("/repo/src/verif.rs"):
+        info["skipped"] = "the hooks (src/verif.rs) are not present in /repo"
+        return info, []
+    r = subprocess.run(["cargo", "test", "--offline", "--no-run", "--workspace"], cwd="/repo", env=env, stdout=subprocess.PIPE,
+                       stderr=subprocess.STDOUT, text=True)
+    if r.returncode != 0:
+        info["skipped"] = "the hooked build of /repo failed: " + r.stdout[-600:]
+        log(f"[{tag}] hooked build failed - this trace source is skipped")
+        return info, []
+    r = subprocess.run(["cargo", "test", "--offline", "--workspace", "--no-fail-fast"], cwd="/repo", env=env, stdout=subprocess.PIPE,
+                       stderr=subprocess.STDOUT, text=True)
+    info["test_exit"] = r.returncode
+    if not os.path.exists(raw):
+        info["skipped"] = "the hooked test run recorded nothing"
+        return info, []
+    trace = os.path.join(outdir, f"{tag}.ndjson")
+    req = trace + ".primreq.json"
+    c = subprocess.run([hbin, "convert", "--in", raw, "--out", trace, "--primreq", req], stdout=subprocess.PIPE,
+                       stderr=subprocess.STDOUT, text=True)
+    if c.returncode != 0:
+        raise ToolError(f"[{tag}] convert failed: {c.stdout[-2000:]}")
+    stats = json.loads(c.stdout.strip().splitlines()[-1])
+    info.update(stats)
+    prims = trace + ".prims.json"
+    g = subprocess.run([primgen_path(), req, prims], stdout=subprocess.PIPE, stderr=subprocess.STDOUT, text=True)
+    if g.returncode != 0:
+        raise ToolError(f"[{tag}] primgen failed: {g.stdout[-2000:]}")
+    os.remove(raw)
+    info["events"] = stats["builds"] + 2 * stats["evals"]
+    info["record_s"] = round(time.time() - t0, 1)
+    if info["events"] == 0:
+        info["skipped"] = "no event was recorded"
+        return info, []
+    rejections = validate_jobs(tag, [(0, trace, prims)], outdir, "repotests", 0, timeout=900, parallel=1, missing_prim_rejects=True)
+    log(f"[{tag}] /repo's own tests under hooks: {stats['builds']} precompilations and {stats['evals']} evaluations recorded, "
+        f"{info['events']} events validated against Trace_Api.tla, {len(rejections)} rejected")
+    return info, rejections
 
 
 def describe_event(ev):
@@ -369,8 +450,13 @@ def describe_event(ev):
         return "".join(chr(c) for c in cp)
     e = ev.get("event", ev)
     parts = [e.get("ev", "?")]
+    def tree(t):
+        label = t["o"] + ("(" + txt(t["n"]) + ")" if t.get("n") else "")
+        return label if not t.get("k") else label + "[" + ", ".join(tree(k) for k in t["k"]) + "]"
     if "src" in e:
         parts.append(repr(txt(e["src"])))
+    elif "tree" in e:
+        parts.append(tree(e["tree"])[:300])
     if "n" in e and isinstance(e["n"], list):
         parts.append(txt(e["n"]))
     res = e.get("res")
@@ -502,6 +588,25 @@ class Check:
                               "observed": None, "finding_key": None})
         return events, rejections
 
+    def add_repo_tests(self, check, tag="trace_repotests"):
+        """Accounts the code->spec run driven by /repo's own tests (hooks on)."""
+        info, rejections = record_repo_tests(tag, self.outdir)
+        run = dict(info, trace_generator="repotests", rejected=len(rejections))
+        self.runs.append(run)
+        if info.get("skipped"):
+            self.assumptions.append("trace source 'repotests' skipped: " + info["skipped"][:200])
+            return info, rejections
+        self.trace_events += info["events"]
+        self.evaluations += info["events"]
+        self.cmds.append("RUSTFLAGS='--cfg evalexpr_verif' EVALEXPR_VERIF_TRACE=raw cargo test (in /repo) ; harness convert ; "
+                         "tlc Trace_Api.tla (POSTCONDITION Accepted)")
+        for r in rejections:
+            self.add_failure({"check": check, "detail": f"execution of /repo's own tests: event {r['index']} is not a behaviour the "
+                              f"specification allows: {describe_event(r)} {r.get('why', '')}",
+                              "case": {"kind": "trace", "gen": "repotests", "seed": 0, "n": 0, "index": r["index"], "event": r["event"]},
+                              "observed": None, "finding_key": None})
+        return info, rejections
+
     def add_failure(self, f):
         k = known_match(self.prop, f, self.findings)
         if k is not None:
@@ -536,6 +641,8 @@ class Check:
             "runs": self.runs,
             "known_findings_hit": [{"key": k, "count": v["count"], "example": v["example"]} for k, v in self.known_hits.items()],
         }
+        if DIAGNOSTICS:
+            cov["diagnostics_not_part_of_the_verdict"] = dict(DIAGNOSTICS)
         cov.update(self.extra)
         ev = {"property_id": self.prop, "tier": self.tier, "seed": seed(), "level": self.level, "coverage": cov,
               "assumptions": self.assumptions, "wall_s": round(wall, 1), "violations": len(self.violations)}
@@ -572,6 +679,14 @@ def replay_file(path):
     if kind == "trace":
         # re-record the trace with the stored generator and seed and validate it again
         c = v["case"]
+        if c["gen"] == "repotests":
+            _, rej = record_repo_tests("replay", os.path.join(OUT, "replay"))
+            if rej:
+                log(f"  event {rej[0]['index']}: {describe_event(rej[0])}")
+                log(f"VIOLATION property={v['property']} replay={path}")
+                return 1
+            log(f"[{v['property']}] the re-recorded execution of /repo's tests is accepted")
+            return 0
         extra = ("--threads", str(c["event"].get("threads", 8))) if c["gen"] == "threads" else ()
         _, rej = record_and_validate("replay", c["gen"], c["n"], 1, os.path.join(OUT, "replay"), base_seed=0, extra_args=extra,
                                      seeds=[c["seed"]])
